@@ -243,6 +243,83 @@ fn default_instances(rep: &mut Report, shard: u64, nshards: u64) {
     }
 }
 
+/// The defaults the binary writer fills gaps with are looked up per CLASS (nearest class in the superclass chain wins):
+/// for every class, one instance sets every travelling default-carrying property to some other value and a second,
+/// bare instance of the class must come back with exactly the database default visible on that class.
+fn default_fill(rep: &mut Report, shard: u64, nshards: u64) {
+    let db = dbwalk::db();
+    let g = crate::gen_value::VGen::binary();
+    let no = |_: Ref| J::Null;
+    for (ci, cname) in dbwalk::sorted_class_names(db).into_iter().enumerate() {
+        if ci as u64 % nshards != shard {
+            continue;
+        }
+        let mut rng = Rng::derive(11, "c16-default-fill", ci as u64);
+        let mut defaults: BTreeMap<String, &Variant> = BTreeMap::new();
+        for c in dbwalk::class_chain(db, cname) {
+            for (k, v) in &c.default_properties {
+                defaults.entry(k.to_string()).or_insert(v);
+            }
+        }
+        let mut donor = InstanceBuilder::new(cname).with_name("donor");
+        let mut expected: Vec<(String, J)> = vec![];
+        for (k, v) in &defaults {
+            if k == "Name" || matches!(v, Variant::Ref(_) | Variant::UniqueId(_)) || !type_ok(Fmt::Binary, v.ty()) {
+                continue;
+            }
+            match dbwalk::travel(db, cname, k) {
+                Some(t) if &t.back_name == k && type_ok(Fmt::Binary, t.wire_ty) => {}
+                _ => continue,
+            }
+            let other = match v.ty() {
+                VariantType::Enum => Variant::Enum(Enum::from_u32(7)),
+                t => match g.gen(&mut rng, t) {
+                    Some(x) => x,
+                    None => continue,
+                },
+            };
+            donor.add_property(k.as_str(), other);
+            expected.push((k.clone(), canon::value(v, &no)));
+        }
+        if expected.is_empty() {
+            continue;
+        }
+        let dom = WeakDom::new(InstanceBuilder::new("DataModel").with_child(donor).with_child(InstanceBuilder::new(cname).with_name("bare")));
+        let roots = dom.root().children().to_vec();
+        let replay = json!({"cmd": "c16", "part": "default-fill", "class": cname});
+        rep.evaluations += 1;
+        rep.count("default_fill.classes");
+        rep.add("default_fill.properties", expected.len() as u64);
+        let res = catch(|| -> Result<J, String> {
+            let bytes = crate::rt::write_binary(&dom, &roots, rbx_binary::CompressionType::None)?;
+            let d = rbx_binary::from_reader(&bytes[..]).map_err(|e| format!("read: {}", e))?;
+            Ok(canon::dump_decoded(&d))
+        });
+        match res {
+            Err(p) => rep.violation(&format!("C16:default-fill:{}", panic_sig(&p)), &format!("{}: {}", cname, p.msg), replay, J::Null),
+            Ok(Err(e)) => {
+                let ec: String = e.split(':').take(2).collect::<Vec<_>>().join(":").chars().take(50).filter(|c| !c.is_ascii_digit()).collect();
+                rep.violation(&format!("C16:default-fill-error:{}", ec), &format!("{}: {}", cname, e), replay, J::Null)
+            }
+            Ok(Ok(dump)) => {
+                let bare = &dump["roots"][1]["props"];
+                for (k, want) in &expected {
+                    match bare.get(k) {
+                        Some(got) if got == want => {}
+                        Some(got) => rep.violation(
+                            &format!("C16:class-default-not-used:{}", want["t"].as_str().unwrap_or("?")),
+                            &format!("{}.{}: an instance lacking the property was written with {} although the default visible on the class is {}", cname, k, got, want),
+                            replay.clone(),
+                            J::Null,
+                        ),
+                        None => rep.violation("C16:default-fill-missing", &format!("{}.{}: the column exists but the bare instance has no value", cname, k), replay.clone(), J::Null),
+                    }
+                }
+            }
+        }
+    }
+}
+
 /// Every (class, own descriptor name) once through the writers' and readers' lookup paths.
 fn lookups(rep: &mut Report, shard: u64, nshards: u64) {
     let db = dbwalk::db();
@@ -443,6 +520,7 @@ pub fn main(a: &Args) {
         lua_copy(&mut rep, &repo);
     }
     default_instances(&mut rep, shard, nshards);
+    default_fill(&mut rep, shard, nshards);
     lookups(&mut rep, shard, nshards);
     rep.finish(&out);
 }
